@@ -91,3 +91,21 @@ prop(id="C16", vfile="Properties/C16.v",
      runs=lambda tier, seed: [dict(profile="valid", seed=seed, n=_sizes(tier, 1, 2)),
                               dict(profile="aol", seed=seed, n=_sizes(tier, 15, 500), extra=["-blocks", "10"])],
      rule=VALID_RULE, assumptions=CHAIN_ASSUME + ["Go regexp semantics for the six literal patterns are modelled by byte-wise character classes (tied to the literals by C16_regex_ties, checked differentially at every class boundary)"])
+
+
+PNFT_RULE = ("pnft profile: 4 accounts; denom ids {a, ab, b, a/b, A} and odd ones (with 0x00, empty), token ids {x, xy, y, c} and odd "
+             "ones; the seven PNFT messages with the tracked current owner as actor 80% of the time, otherwise former owners, creators "
+             "that are no longer owners and strangers; optional fields empty/non-empty; authz Grant+Exec wrapping; wrong signers; "
+             "EXPORTIMPORT events; after every block the pnft store dump and sampled Denom/PNFT/PNFTs/ByOwner/DenomsByOwner/Denoms "
+             "queries are compared with the model; non-trivial = at least one accepted and one refused transaction")
+
+
+def _pnft_runs(tier, seed):
+    return [dict(profile="pnft", seed=seed, n=_sizes(tier, 40, 3000), extra=["-blocks", str(_sizes(tier, 12, 30))])]
+
+
+prop(id="C06", vfile="Properties/C06.v", runs=_pnft_runs, rule=PNFT_RULE,
+     assumptions=CHAIN_ASSUME + ["x/nft keeper (pinned SDK v0.47.12) is modelled line by line (Pnft/Model.v), not verified"])
+
+prop(id="C12", vfile="Properties/C12.v", runs=_pnft_runs, rule=PNFT_RULE,
+     assumptions=CHAIN_ASSUME + ["x/nft keeper (pinned SDK v0.47.12) is modelled line by line (Pnft/Model.v), not verified"])
